@@ -707,3 +707,35 @@ func Replay(path, repo, vd string) (int, error) {
 	fmt.Printf("replay of %s: no violation on the current tree (recorded: %s)\n", path, rp.Class)
 	return 0, nil
 }
+
+// Digest builds a few worlds and runs each world binary with a fixed seed; the lines hold
+// the pass/fail verdict and the complete statistics, which must be identical in every
+// process for the same seed.
+func Digest(seed uint64, repo string) ([]string, error) {
+	e, err := NewEngine(repo)
+	if err != nil {
+		return nil, err
+	}
+	defer e.Close()
+	var out []string
+	for _, id := range []string{"C04", "C07"} {
+		for i := 0; i < 2; i++ {
+			s := NewSpec(worldSeed(seed, id, i), id)
+			r, err := e.BuildWorld(s, i)
+			if err != nil {
+				return nil, err
+			}
+			if r.Rejected {
+				out = append(out, fmt.Sprintf("conv %s world%d rejected", id, i))
+				continue
+			}
+			if err := e.RunWorld(r, 40, worldSeed(seed, id, i), ""); err != nil {
+				return nil, err
+			}
+			b, _ := json.Marshal(r.Stats)
+			out = append(out, fmt.Sprintf("conv %s world%d failed=%v stats=%s", id, i, r.Failed, string(b)))
+			_ = os.RemoveAll(r.Dir)
+		}
+	}
+	return out, nil
+}
